@@ -213,6 +213,13 @@ func zzH_C17_stream() {
 		_, err = r.ReadByte()
 		zzAssume(n < 1)
 	}
+	sourceCaused := unit <= 4 || unit == 8 || unit == 9 || unit == 11 // fixed-size readers over too few bytes
+	if sourceCaused {
+		zzAssert(err != nil, "reader succeeded although the source ran dry")
+		if err != nil {
+			zzAssert(errors.Is(err, srcErr), "failure caused by the source does not match the source's error")
+		}
+	}
 	if err == nil {
 		return
 	}
